@@ -35,7 +35,8 @@ DefaultComponentDataStorage::DefaultComponentDataStorage(const ComponentIdMask& 
         auto offset = ComponentOffset::make(0u);
         mask.forEachItem([this, &offset, &mask](ComponentId id) {
             const auto& info = ComponentFactory::instance().componentInfo(id);
-            if (offset.toInt() == 0) {
+            // the chunk base must satisfy every member: alignments are powers of two, so the largest one does
+            if (chunk_align_ < static_cast<uint32_t>(info.align)) {
                 chunk_align_ = static_cast<uint32_t>(info.align);
             }
             ComponentDataGetter getter;
